@@ -128,6 +128,8 @@ def read_case(req, shp, shx, ops, fault=None, sched=()):
             out += [5, o[1], o[2]]
         elif o[0] == "readall":
             out.append(6)
+        elif o[0] == "probe":
+            out += [7, o[1], o[2]]
         else:
             out.append(4)
     return out
@@ -161,7 +163,7 @@ def parse_read(r, ops):
             n = c.next()
             items = [_item(c) for _ in range(n)]
             outs.append({"items": items, "ended": c.next()})
-        elif o[0] == "nth":
+        elif o[0] in ("nth", "probe"):
             outs.append({"nth": None if c.next() == 0 else _item(c)})
         elif o[0] == "seek":
             outs.append({"seek": c.res_unit()})
